@@ -398,9 +398,9 @@ func driveC15(args []string) error {
 				err = g.SetLinearGradient(0.5, 0.5, 4.5, 0.5, sp, gs)
 				probes = [][2]int{{0, 0}, {4, 0}, {2, 0}, {2, 3}, {2, 7}, {5, 0}, {6, 5}, {7, 7}, {4, 6}}
 			default:
-				// the line starts inside the picture (round 10): pixels before its start have negative offsets (-1, -1/2), the
-				// ones beyond its end offsets up to 5/2 - what the spread makes of both sides
-				err = g.SetLinearGradient(2.5, 0.5, 4.5, 0.5, sp, gs)
+				// the line starts inside the picture (round 10): pixels before its start have negative offsets (-1/2, -1/4), the
+				// one beyond its end offset 5/4 - what the spread makes of both sides
+				err = g.SetLinearGradient(2.5, 0.5, 6.5, 0.5, sp, gs)
 				probes = [][2]int{{0, 0}, {1, 0}, {2, 0}, {3, 0}, {4, 0}, {5, 0}, {6, 0}, {7, 0}, {0, 5}, {1, 7}, {6, 3}}
 			}
 			if err != nil {
